@@ -13,7 +13,7 @@ import re
 
 from . import cfg as cfgm
 from .facts import const_int
-from .terms import PHI, Int, Term, is_t, mk, show, subterms
+from .terms import FIRST_CELLS, PHI, Int, Term, is_t, mk, show, subterms
 
 MAX_DEPTH = 48
 
@@ -265,6 +265,7 @@ class Engine:
         self.events = {}        # (frame_key, block, tag) -> dict
         self.switch_terms = {}  # (frame_key, block) -> (discr term, targets, otherwise)
         self.block_facts = {}   # (frame_key, block) -> frozenset of facts established inside that frame
+        self.model_alt_facts = {}   # (frame_key, ("m", block, idx)) -> explicit facts of a model-built enum alternative
         self.len_elem = {}      # id of a len(..) term -> (element type string, crate) of the measured Vec / slice
         self.frames = {}        # frame_key -> Frame (last analysed)
         self.unsupported = []   # notes (recursion, unknown writes ...)
@@ -593,6 +594,7 @@ class Engine:
                 break
         # facts per block (dominating switch edges of the final pass)
         self.compute_block_facts(frame, in_states)
+        self.detect_first_cells(frame)
         # return value: join over return blocks
         rets = []
         for b in cfg.return_blocks():
@@ -659,6 +661,9 @@ class Engine:
         out = set()
         fk, b = frame_key, block
         while fk is not None:
+            if isinstance(b, tuple) and b and b[0] == "m":
+                out |= self.model_alt_facts.get((fk, b), frozenset())     # alternative built by a model at block b[1]
+                b = b[1]
             out |= self.block_facts.get((fk, b), frozenset())
             fr = self.frames.get(fk)
             if fr is None:
@@ -723,10 +728,79 @@ class Engine:
         self.note("unhandled terminator in %s: %s" % (fn.name, list(t.keys())))
         return None
 
+    # ---------------- set-once cells holding the first element ----------------
+    def detect_first_cells(self, frame):
+        """H = loop-head join {None on entry, sl over the back edges}, sl = join {H, Some(x)} where the Some arrives only
+        over an edge on which `H is None` holds and x is the current element of the loop's own iterator, which traverses a
+        collection C completely and in order from its start: after the loop (and on every iteration after the
+        assignment) the cell holds Some(C[0]) or is None iff C is empty."""
+        cfg = frame.cfg
+        heads = self._loop_heads(frame)
+        if not heads:
+            return
+        from . import query as Q
+        for key, inc in list(PHI.items()):
+            if not (isinstance(key, tuple) and len(key) >= 3 and key[0] == frame.key and key[1] in heads and len(key) == 3):
+                continue
+            head = key[1]
+            H = mk("phi", key)
+            vals = list(inc.values())
+            nones = [v for v in vals if v.op == "enum" and len(v.args[1]) == 1 and v.args[1][0][1] == "None"]
+            backs = [v for v in vals if v.op == "phi" and v is not H]
+            if len(nones) != 1 or not backs or len({b.id for b in backs}) != 1 or len(nones) + len(backs) != len(vals):
+                continue
+            sl = backs[0]
+            sinc = PHI.get(sl.args[0]) or {}
+            if len(sinc) != 2:
+                continue
+            keep = [p for p, v in sinc.items() if v is H]
+            somes = [(p, v) for p, v in sinc.items() if v.op == "enum" and len(v.args[1]) == 1 and v.args[1][0][1] == "Some" and v.args[1][0][2]]
+            if len(keep) != 1 or len(somes) != 1 or not isinstance(somes[0][0], int):
+                continue
+            pred, sv = somes[0]
+            fs = Q.closure(self, self.block_facts.get((frame.key, pred), frozenset()))
+            if not any(t.op == "discr" and t.args[0] is H and rel == "eq" and v == 0 for t, rel, v in fs):
+                continue
+            x = sv.args[1][0][2][0]
+            e = x
+            while e.op in ("refv", "deref") and len(e.args) == 1:
+                e = e.args[0]
+            if e.op != "elem" or len(e.args) < 2:
+                continue
+            site = e.args[1]
+            nx = [ev for ev in self.events.values() if ev["kind"] == "call" and ev["frame"] == frame.key and
+                  (ev.get("dname") or "").endswith("Iterator::next") and cfg.dominates(head, ev["block"]) and head in cfg.reachable_from(ev["block"])
+                  and ev["argv"] and ev["argv"][0] is not None and Q.contains(ev["argv"][0], lambda z: z.op == "iter" and site in z.args[2:])]
+            if len(nx) != 1:
+                continue
+            src = Q.whole_of(nx[0]["argv"][0], None, ordered=True)
+            if src is None or src is not e.args[0]:
+                continue
+            FIRST_CELLS[H.id] = Q.substitute(x, e, index(src, Int(0, "usize")))
+
+    # ---------------- helper-transparent view of frames ----------------
+    def home_of(self, frame, b):
+        """(frame key, block, function name) of the nearest enclosing frame whose function existed on the reference tree
+        (sv/anchors.json `known`): a function that is new - an extracted private helper - is seen as part of its caller,
+        at the block of the call.  Existing functions, their closures and trait impls keep their own identity."""
+        from .facts import known_functions
+        known = known_functions()
+        n = 0
+        while frame.parent is not None and n < 32:
+            nm = frame.fn.name
+            base = nm.split("::{closure")[0]
+            if not known or nm in known or base in known:
+                break
+            frame, b = frame.parent, frame.call_block
+            n += 1
+        return frame.key, b, frame.fn.name
+
     # ---------------- correlation of a callee's writes with the alternative it returned ----------------
     def _lift(self, fk, b, target_fk):
         """block of frame target_fk in which (fk, b) lies (b itself, or the call block of the inlined chain)"""
         n = 0
+        if isinstance(b, tuple) and b and b[0] == "m":
+            b = b[1]
         while fk != target_fk and n < 64:
             fr = self.frames.get(fk)
             if fr is None or fr.parent is None:
@@ -1027,11 +1101,25 @@ class Engine:
             # indirect call through a value (closure / fn pointer)
             fv = self.operand(state, frame, callee)
             res = self.invoke_value(call, fv, args)
+        if res is not None and res.op == "enum" and any(not a[4] for a in res.args[1]):
+            # an alternative built by a model (no creation site yet) exists from this call on: the facts that dominate the
+            # call hold whenever it is selected (e.g. `c.verify(j).map(|()| c)` returned directly)
+            alts = []
+            for a in res.args[1]:
+                if a[4]:
+                    alts.append(a)
+                    continue
+                ob = ("m", b, a[0]) if a[3] else b       # a synthetic origin keeps the alternative's own facts with it
+                if a[3]:
+                    self.model_alt_facts[(frame.key, ob)] = frozenset(a[3])
+                alts.append((a[0], a[1], a[2], a[3], frozenset([(frame.key, ob)])))
+            res = mk("enum", res.args[0], tuple(alts))
         ev = {"kind": "call", "fn": fn.name, "frame": frame.key, "block": b, "at": t["at"], "x": t["x"],
               "callee": call.get("callee_name"), "dname": call.get("dname"), "args": args, "argv": argv, "result": res,
               "pre": call.get("pre"), "alloc_size": call.get("alloc_size"), "strobe_more": call.get("strobe_more"),
               "substs": call.get("substs"), "inlined": call.get("inlined", False), "model": call.get("model"),
               "local": call.get("local", False), "tc": call.get("tc", False), "diverges": t["target"] < 0}
+        ev["home"], ev["home_block"], ev["home_fn"] = self.home_of(frame, b)
         self.events[(frame.key, b, "t")] = ev
         self.cur = (frame, b)
         if res is None or t["target"] < 0:
